@@ -26,7 +26,7 @@ def c03(tier, seed):
 
 
 def c05(tier, seed):
-    return combine(fam_list(tier, ['core_q', 'frac_q', 'split_q', 'split5_q', 'residue_q', 'two_split_q'], ['core_t', 'split_t', 'two_q']) + [trace_family(tier, seed)], 'uncovered',
+    return combine(fam_list(tier, ['core_q', 'frac_q', 'split_q', 'split5_q', 'residue_q', 'two_split_q'], ['core_t', 'split_t', 'two_q']) + [trace_family(tier, seed), cli_family(tier)], 'uncovered',
                    'every cell ledger of the family, covered or not; non-trivial = uncovered ledgers (must be refused '
                    'naming security and date); covered ones must be accepted')
 
@@ -96,6 +96,16 @@ def _c07(tier, seed):
 
 
 def c08(tier, seed):
+    r = _c08(tier, seed)
+    m = mcp_check(tier, seed)      # get_fx_rate through the MCP server against the bundled XML
+    r['findings'] += [f for f in m['findings'] if f['prop'] == 'C08']
+    r['coverage']['mcp_sessions'] = m['coverage'].get('sessions', 0)
+    r['coverage']['states'] += m['coverage']['states']
+    r['coverage']['transitions'] += m['coverage']['transitions']
+    return r
+
+
+def _c08(tier, seed):
     return combine([fx_family(tier)], ['multi_foreign_field', 'missing_rate_refused', 'bad_folder_rejected'],
                    '12 rates-folder configurations (override, addition, two files for one month in both mtime orders, period/name '
                    'mismatch in month / year / both, zero and negative rates, non-xml file, good-then-bad) x every assignment '
